@@ -16,6 +16,9 @@
  * limitations under the License.
  */
 use crate::store::StoreItem;
+#[cfg(transparencies_stretto_verif)]
+use crate::verif::locks::{RwLockReadGuard, RwLockWriteGuard};
+#[cfg(not(transparencies_stretto_verif))]
 use parking_lot::{RwLockReadGuard, RwLockWriteGuard};
 use std::cell::UnsafeCell;
 use std::collections::hash_map::RandomState;
